@@ -187,6 +187,22 @@ def isBound (allowMulti : Bool) (fs : List File) (n : Nat) : Bool :=
   | some (.chosen f) => isLoaded fs f
   | _ => false
 
+/-- `isBound` as seen from a reference in file kind `fromDyn`. For a reference made by a SHARED OBJECT a definition in another
+shared object counts even when that library was not activated (an `--as-needed` library nobody else needs): its symbols
+stay in the symbol table as definitions (layout.rs `request_all_undefined_symbols` only looks at the definition's flags).
+For a regular object's reference the two coincide (`isBoundFrom_false`); such a reference activates the library anyway. -/
+def isBoundFrom (allowMulti : Bool) (fs : List File) (fromDyn : Bool) (n : Nat) : Bool :=
+  match resolveName allowMulti fs n with
+  | some (.chosen f) => isLoaded fs f || (fromDyn && (fs[f]?.map (·.dynamic)).getD false)
+  | _ => false
+
+theorem isBoundFrom_false (allowMulti : Bool) (fs : List File) (n : Nat) :
+    isBoundFrom allowMulti fs false n = isBound allowMulti fs n := by
+  unfold isBoundFrom isBound
+  cases resolveName allowMulti fs n with
+  | none => rfl
+  | some r => cases r <;> simp
+
 /-- `(file, name)` pairs reported as undefined-symbol errors when linking an executable: a loaded
 file (regular object, or shared object whose dependencies are all part of the link) references `n`
 non-weakly and `n` is bound to nothing. -/
@@ -195,7 +211,7 @@ def undefinedErrors (allowMulti : Bool) (fs : List File) : List (Nat × Nat) :=
     match fs[i]? with
     | some f =>
       if isLoaded fs i then
-        (f.strongUndefs.filter fun n => !isBound allowMulti fs n).map fun n => (i, n)
+        (f.strongUndefs.filter fun n => !isBoundFrom allowMulti fs f.dynamic n).map fun n => (i, n)
       else []
     | none => []
 
